@@ -312,6 +312,20 @@ def _worker(args):
             r["lines"] = sorted(hit)
         else:
             r = run_history(pid, history, meta)
+        if os.environ.get("VERIF_AMPLIFY_ALL") and idx < int(os.environ["VERIF_AMPLIFY_ALL"]) and not profile.get("_special"):
+            # soundness test of the failing-input search (not part of a registered check): its continuations,
+            # run on histories of the unchanged tree, must not make any oracle or the correspondence fail
+            import amplify
+            from props import info
+            for name, h2, m2 in amplify.continuations(history, meta, info()):
+                r2 = run_history(pid, h2, m2)
+                for f in r2["findings"]:
+                    f["clause"] = "[amplified:%s] %s" % (name, f["clause"])
+                if r2["findings"] or r2["diff"]:
+                    r["findings"] = r["findings"] + r2["findings"]
+                    r["diff"] = r["diff"] or r2["diff"]
+                    history = h2
+                    break
         r["seed"] = seed
         r["profile"] = profile_name
         r["history"] = history if (r["findings"] or r["diff"]) else None
@@ -341,6 +355,33 @@ def shrink_history(pid, history, meta, pred):
         return corr.shrink(history, still, budget=150)
     except Exception:
         return history
+
+
+def amplify_search(pid, bases, meta):
+    """the correspondence broke and no oracle failed: extend the diverging history in generic ways
+    (harness/amplify.py) and ask the property's oracle again"""
+    import amplify
+    from props import info
+    seen = []
+    for base in bases:
+        if base in seen:
+            continue
+        seen.append(base)
+        try:
+            conts = amplify.continuations(base, meta, info())
+        except Exception as e:
+            log("amplify: %s: %s" % (type(e).__name__, e))
+            continue
+        for name, h2, m2 in conts:
+            try:
+                r2 = run_history(pid, h2, m2)
+            except Exception as e:
+                log("amplify %s: %s: %s" % (name, type(e).__name__, e))
+                continue
+            bad2 = [f for f in r2["findings"] if f["known"] is None]
+            if bad2:
+                return name, h2, m2, bad2
+    return None
 
 
 def load_known():
@@ -453,6 +494,7 @@ def main():
         corpus_dir = os.path.join(VERIF, "corpus")
         corpus = sorted(f for f in os.listdir(corpus_dir) if f.endswith(".json")) if os.path.isdir(corpus_dir) else []
         ncorpus = 0
+        corpus_diffs = []
         for ent_kind, ent in jobs:
             h = json.load(open(os.path.join(VERIF, ent["replay"])))
             r = run_history(pid, h["history"], dict(h.get("meta", {}), tier="thorough"))
@@ -473,11 +515,14 @@ def main():
             ncorpus += 1
             r = run_history(pid, h["history"], dict(h.get("meta", {}), tier="thorough"))
             bad = [f for f in r["findings"] if f["known"] is None]
-            if bad or r["diff"]:
+            if bad:
                 path = write_replay(pid, "corpus-" + fn[:-5], {"history": h["history"], "meta": h.get("meta", {}),
                                                                 "findings": bad, "correspondence": r["diff"]})
-                violations.append((path, "" if bad else " no-failing-input-found"))
+                violations.append((path, ""))
+            elif r["diff"]:
+                corpus_diffs.append((fn, h, r["diff"]))
         cov["corpus_replayed"] = ncorpus
+        cov["corpus_correspondence_mismatches"] = len(corpus_diffs)
 
         # (4) generated histories
         profs = profiles_for(pid, tier)
@@ -548,11 +593,46 @@ def main():
                     "quiesce": QUIESCE(r["profile"], profs)}
             small = shrink_history(pid, r["history"], meta, lambda rr: rr["diff"] is not None)
             rr = run_history(pid, small, meta)
+            amp = amplify_search(pid, [small, r["history"]], meta)
+            if amp is not None:
+                name, h2, m2, bad2 = amp
+                clause = bad2[0]["clause"]
+                small2 = shrink_history(pid, h2, m2, lambda q: any(f["known"] is None and f["clause"] == clause for f in q["findings"]))
+                r2 = run_history(pid, small2, m2)
+                path = write_replay(pid, "oracle-amplified-%d" % r["seed"], {
+                    "property": pid, "clause": clause, "history": small2, "history_lines": [proto.op_line(o) for o in small2],
+                    "meta": m2, "findings": [f for f in r2["findings"] if f["known"] is None] or bad2,
+                    "correspondence": r2["diff"], "found_by": "continuation '%s' of the history on which model and implementation first differed" % name,
+                    "diverging_history_lines": [proto.op_line(o) for o in small]})
+                violations.append((path, ""))
+        if first_diff is not None and not violations:
             path = write_replay(pid, "correspondence-%d" % r["seed"], {
                 "property": pid, "broken": "correspondence model <-> implementation on obs_%s" % pid,
                 "history": small, "history_lines": [proto.op_line(o) for o in small], "meta": meta,
                 "difference": rr["diff"] or r["diff"], "oracle_findings": rr["findings"]})
             violations.append((path, " no-failing-input-found"))
+        if corpus_diffs and not [v for v in violations if not v[1]]:
+            # a corpus history on which model and implementation differ, no oracle failing anywhere so far
+            for fn, h, dff in corpus_diffs[:3]:
+                amp = amplify_search(pid, [h["history"]], dict(h.get("meta", {}), tier="thorough"))
+                if amp is not None:
+                    name, h2, m2, bad2 = amp
+                    clause = bad2[0]["clause"]
+                    small2 = shrink_history(pid, h2, m2, lambda q: any(f["known"] is None and f["clause"] == clause for f in q["findings"]))
+                    r2 = run_history(pid, small2, m2)
+                    path = write_replay(pid, "oracle-amplified-corpus-" + fn[:-5], {
+                        "property": pid, "clause": clause, "history": small2, "history_lines": [proto.op_line(o) for o in small2],
+                        "meta": m2, "findings": [f for f in r2["findings"] if f["known"] is None] or bad2, "correspondence": r2["diff"],
+                        "found_by": "continuation '%s' of corpus history %s, on which model and implementation differ" % (name, fn)})
+                    violations[:] = [v for v in violations if v[1] == ""]
+                    violations.append((path, ""))
+                    break
+            else:
+                if not violations:
+                    fn, h, dff = corpus_diffs[0]
+                    path = write_replay(pid, "corpus-" + fn[:-5], {"history": h["history"], "meta": h.get("meta", {}),
+                                                                    "findings": [], "correspondence": dff})
+                    violations.append((path, " no-failing-input-found"))
         ndiff = len([r for r in results if r["diff"]])
         cov.update({"evaluations": len(results), "distinct_nontrivial": len(nontrivial),
                     "rule": spec.get("rule", "histories generated from VERIF_SEED per profile; distinct = distinct sequence of operation kinds; non-trivial = reached the property's trigger (see props.py)"),
